@@ -165,15 +165,44 @@ def check_useable_schedule(rep, mod, K):
     the loop counters, so constant propagation over the unrolled loops (CONSTINTERP: table contents are TOP) yields, for every
     symbol index, the constant added to its code length."""
     import constinterp, rfc1951
-    R = rep.rule('T-EXTRA-SCHEDULE', 'are_hufftables_useable: for every length symbol 257..284 and every distance symbol 0..29 the constant the function adds to the symbol\'s code length '
-                 '(constant propagation through the unrolled, data-independent loop schedule) equals the RFC 1951 extra-bit count of that symbol; the sum is compared with MAX_BITBUF_BIT_WRITE', floor=58, unit='symbols')
+    R = rep.rule('T-EXTRA-SCHEDULE', 'are_hufftables_useable: the compared total is the sum of three maxima; every length symbol 257..285 is a candidate of one of them and every distance symbol 0..29 of another, each with exactly the RFC 1951 extra-bit count of that symbol added '
+                 '(constant propagation through the unrolled, data-independent loop schedule); every literal is a candidate of the third; the sum is compared with MAX_BITBUF_BIT_WRITE', floor=59, unit='symbols')
     f = mod.funcs.get('are_hufftables_useable')
     if f is None:
         raise AnalysisBroken('are_hufftables_useable not found')
     P = irrules.prov(mod, f)
-    seen = {0: {}, 1: {}}
+    # the three maxima the function adds up: the operand of the final comparison is a sum; each summand is a family of phis whose non-phi incoming values are
+    # 0 or a (table entry length [+ constant]) - the candidates of that maximum
+    ret_cmp = [i for i in f.all_insns() if i.op == 'icmp' and i.extra['pred'] in ('sgt', 'ugt') and re.match(r'^\d+$', i.ops[1]) and f.blocks[i.block].insns[-1].op == 'ret']
+    if len(ret_cmp) != 1:
+        raise AnalysisBroken('are_hufftables_useable: expected one final "sum > constant" comparison, found %d' % len(ret_cmp))
+    cmpk = [int(ret_cmp[0].ops[1])]
+
+    def summands(v):
+        d = f.defs.get(irrules._strip(f, v))
+        if d is not None and d.op == 'add' and not any(re.match(r'^-?\d+$', o) for o in d.ops):
+            return summands(d.ops[0]) + summands(d.ops[1])
+        return [irrules._strip(f, v)]
+    sums = summands(ret_cmp[0].ops[0])
+    if len(sums) != 3:
+        raise AnalysisBroken('are_hufftables_useable: the compared total has %d summands, expected literal + length + distance' % len(sums))
+    famof = {}
+    for n, s0 in enumerate(sums):
+        work, seenp = [s0], set()
+        while work:
+            v = work.pop()
+            if v in seenp or re.match(r'^-?\d+$', v):
+                continue
+            seenp.add(v)
+            d = f.defs.get(v)
+            if d is not None and d.op == 'phi':
+                work += [irrules._strip(f, x) for x, _ in d.extra['incoming']]
+            elif d is not None:
+                if v in famof and famof[v] != n:
+                    raise AnalysisBroken('are_hufftables_useable: value %s feeds two of the three maxima' % v)
+                famof[v] = n
+    seen = {n: {0: {}, 1: {}} for n in range(3)}      # family -> table -> symbol -> set of constants added
     loads = {0: set(), 1: set()}
-    cmpk = []
 
     def index_of(ptr, env, ip):
         v = ptr
@@ -187,35 +216,52 @@ def check_useable_schedule(rep, mod, K):
             v = d.ops[0]
         return None
 
+    def table_of(ld):
+        for a in P.atoms(ld.ops[0]):
+            if a[0] == 'param' and a[1] in (0, 1):
+                return a[1]
+        return None
+
     def obs(i, env, ip):
-        if i.op == 'load':
-            at = P.atoms(i.ops[0])
-            for a in at:
-                if a[0] == 'param' and a[1] in (0, 1):
-                    k = index_of(i.ops[0], env, ip)
-                    if k is not None and k != constinterp.TOP:
-                        loads[a[1]].add(k)
-        if i.op == 'add':
-            for x, y in ((i.ops[0], i.ops[1]), (i.ops[1], i.ops[0])):
-                d = f.defs.get(irrules._strip(f, x))
-                if d is not None and d.op == 'load':
-                    at = P.atoms(d.ops[0])
-                    for a in at:
-                        if a[0] == 'param' and a[1] in (0, 1):
-                            k = index_of(d.ops[0], env, ip)
-                            seen[a[1]].setdefault(k, set()).add(ip.val(y, env))
-        if i.op == 'icmp' and i.extra['pred'] in ('sgt', 'ugt') and re.match(r'^\d+$', i.ops[1]) and f.blocks[i.block].insns[-1].op == 'ret':
-            cmpk.append(int(i.ops[1]))
+        if i.op == 'load' and table_of(i) is not None:
+            k = index_of(i.ops[0], env, ip)
+            if k is not None and k != constinterp.TOP:
+                loads[table_of(i)].add(k)
+        if i.dst in famof:
+            ld, addend = None, 0
+            d = i
+            if d.op == 'add':
+                for x, y in ((d.ops[0], d.ops[1]), (d.ops[1], d.ops[0])):
+                    dx = f.defs.get(irrules._strip(f, x))
+                    if dx is not None and dx.op == 'load' and table_of(dx) is not None:
+                        ld, addend = dx, ip.val(y, env)
+            else:
+                dx = f.defs.get(irrules._strip(f, i.dst)) if i.op in ('zext', 'sext', 'trunc') else i
+                if dx is not None and dx.op == 'load' and table_of(dx) is not None:
+                    ld = dx
+            if ld is not None:
+                k = index_of(ld.ops[0], env, ip)
+                seen[famof[i.dst]][table_of(ld)].setdefault(k, set()).add(addend)
     ip = constinterp.Interp(mod, f, obs)
     ip.run()
     where = 'igzip/huff_codes.c:are_hufftables_useable'
-    for tbl, lo, hi, ref, name in ((0, 257, 284, lambda s_: rfc1951.LEN_EXTRA[s_ - 257], 'length'), (1, 0, K['DIST_LEN'] - 1 if 'DIST_LEN' in K else 29, lambda s_: rfc1951.DIST_EXTRA[s_], 'distance')):
+    # which family is which: the one whose candidates are distance-table entries, the one that has a candidate for every literal 0..255, the remaining one
+    fam_dist = [n for n in range(3) if seen[n][1]]
+    fam_lit = [n for n in range(3) if n not in fam_dist and set(range(0, 256)) <= set(seen[n][0])]
+    fam_len = [n for n in range(3) if n not in fam_dist and n not in fam_lit[:1]]
+    if len(fam_dist) != 1 or not fam_lit or len(fam_len) != 1:
+        R.instance()
+        R.fail(where, 'the three summands of the compared total are not (a maximum over all literal codes) + (a maximum over the length codes) + (a maximum over the distance codes): candidates per summand %s'
+               % [(sorted(k for k in seen[n][0] if isinstance(k, int))[:3], len(seen[n][0]), len(seen[n][1])) for n in range(3)], key='T-EXTRA-SCHEDULE|shape')
+        return
+    lenhi = K.get('LIT_LEN', 286) - 1
+    for fam, tbl, lo, hi, ref, name in ((fam_len[0], 0, 257, lenhi, lambda s_: rfc1951.LEN_EXTRA[s_ - 257], 'length'), (fam_dist[0], 1, 0, K['DIST_LEN'] - 1 if 'DIST_LEN' in K else 29, lambda s_: rfc1951.DIST_EXTRA[s_], 'distance')):
         for s_ in range(lo, hi + 1):
             R.instance()
-            got = seen[tbl].get(s_)
-            R.check(got == {ref(s_)}, where, '%s symbol %d: the function adds %s to its code length, RFC 1951 gives it %d extra bits; the widest code is mis-measured and an over-wide table can be accepted for the 64-bit bit buffer'
-                    % (name, s_, sorted(got, key=str) if got else 'nothing (symbol not visited)', ref(s_)), key='T-EXTRA-SCHEDULE|%s|%d' % (name, s_),
-                    sample='%s symbols %d..%d: extra bits as in RFC 1951' % (name, lo, hi) if s_ == hi else None)
+            got = seen[fam][tbl].get(s_)
+            R.check(got == {ref(s_)}, where, '%s symbol %d: the %s maximum takes it with %s added to its code length, RFC 1951 gives it %d extra bits; the widest literal + length + distance group is mis-measured and an over-wide '
+                    'table can be accepted for the 64-bit bit buffer' % (name, s_, name, sorted(got, key=str) if got else 'NOTHING (the symbol is not a candidate of that maximum)', ref(s_)),
+                    key='T-EXTRA-SCHEDULE|%s|%d' % (name, s_), sample='%s symbols %d..%d: candidates of the %s maximum with the extra bits of RFC 1951' % (name, lo, hi, name) if s_ == hi else None)
     R.instance()
     R.check(set(range(0, 286)) <= loads[0], where, 'the literal/length scan does not visit every symbol 0..285 (visited %d)' % len(loads[0]), key='T-EXTRA-SCHEDULE|litscan', sample='all 286 lit/len symbols visited')
     R.check(cmpk == [K['MAX_BITBUF_BIT_WRITE']], where, 'the total is compared with %s, expected MAX_BITBUF_BIT_WRITE = %d' % (cmpk, K['MAX_BITBUF_BIT_WRITE']), key='T-EXTRA-SCHEDULE|limit',
